@@ -433,6 +433,13 @@ func editRun(repo string, seed int64, ngen, capPerDoc, maxDocs int, out string) 
 		build  func(v any) map[string]any
 		path   string
 		values []any
+		all    bool // every member is an original in the quick tier too
+	}
+	// characters that encoders other than the canonical one escape or drop: each with two different prefixes, so
+	// that an escape which loses the text before it makes two members collide
+	seps := []any{"AB", "XB"}
+	for _, c := range []string{"\u2028", "\u2029", "\u0085", "\u00a0", "\ufeff", "\u007f", "<", ">", "&", "\ufffd", "\U0001F600"} {
+		seps = append(seps, "A"+c+"B", "X"+c+"B", c+"B", "A"+c)
 	}
 	ctl := []any{}
 	for c := 1; c < 0x20; c++ {
@@ -454,6 +461,9 @@ func editRun(repo string, seed int64, ngen, capPerDoc, maxDocs int, out string) 
 		{name: "control-chars-key", path: "/meta/k", values: ctl, build: func(v any) map[string]any {
 			return map[string]any{"$schema": "https://gobl.org/draft-0/note/message", "uuid": "0190d2c4-6e2e-7c0c-9d1e-0a1b2c3d4e60", "content": "c", "meta": map[string]any{"k": v}}
 		}},
+		{name: "escaped-elsewhere", path: "/content", values: seps, all: true, build: func(v any) map[string]any {
+			return map[string]any{"$schema": "https://gobl.org/draft-0/note/message", "uuid": "0190d2c4-6e2e-7c0c-9d1e-0a1b2c3d4e60", "title": "t", "content": v}
+		}},
 		{name: "float-exponents", path: "/addresses/0/coords/lat", values: lats, build: func(v any) map[string]any {
 			return map[string]any{"$schema": "https://gobl.org/draft-0/org/party", "uuid": "0190d2c4-6e2e-7c0c-9d1e-0a1b2c3d4e61", "name": "P",
 				"addresses": []any{map[string]any{"locality": "L", "country": "ES", "coords": map[string]any{"lat": v, "lon": json.Number("1.5")}}}}
@@ -464,7 +474,7 @@ func editRun(repo string, seed int64, ngen, capPerDoc, maxDocs int, out string) 
 		for i := range idx {
 			idx[i] = i
 		}
-		if capPerDoc > 0 {
+		if capPerDoc > 0 && !fm.all {
 			// quick tier: a seeded third of the family as originals, all members as edits
 			r.Shuffle(len(idx), func(i, j int) { idx[i], idx[j] = idx[j], idx[i] })
 			idx = idx[:(len(idx)+2)/3]
